@@ -9,7 +9,8 @@ src/websocket_client.rs) against spec/ClientMux.tla.
     caller-granularity events are validated by Trace_ClientMux, in which the reader's steps are
     silent ClientMux actions.  C04 mode: every reply order for n callers with unknown-id, duplicate
     and id-reusing notify frames inserted, 64 callers in random order, batches, a forward_message that
-    reuses the id of a call in flight (async client).  C06 mode: each fault kind at each step with
+    reuses the id of a call in flight (async client); the WebSocket client's notify subscription slot
+    (spec/NotifySub.tla, Trace_NotifySub) under concurrent subscribe / unsubscribe / receiver drops.  C06 mode: each fault kind at each step with
     0..n calls in flight, timeouts racing the response, cancellation, and a malformed frame arriving
     while another caller is stuck writing an 8 MiB request to a peer that keeps the socket open.
 """
